@@ -78,27 +78,31 @@ prop('C02',
 
 PAIRS_Q = [('int8', 'int8'), ('float64', 'float64'), ('float32', 'float64'), ('float64', 'float32'), ('int16', 'float64'),
            ('float64', 'int16'), ('uint8', 'int64'), ('int64', 'uint8'), ('uint16', 'uint16'), ('int32', 'float32'),
-           ('uint64', 'float64'), ('float32', 'int8')]
+           ('uint64', 'float64'), ('float32', 'int8'), ('float64', 'uint8'), ('float32', 'uint16')]
 PAIRS_ALL = [(a, b) for a in ALL for b in ALL]
 C01_Q = {'MaxC': 3, 'MaxK': 2}
 C01_T = {'MaxC': 3, 'MaxK': 3}
 
 prop('C01', opts={'abstract_fp': True},
      harnesses=[
-         {'name': 'C01_Write', 'types': {'quick': PAIRS_Q, 'thorough': PAIRS_ALL}, 'params': {'quick': C01_Q, 'thorough': C01_T},
+         {'name': 'C01_Write', 'types': {'quick': PAIRS_Q, 'thorough': PAIRS_ALL}, 'params': {'quick': C01_Q, 'thorough': C01_Q},
           'covers': ['written', 'untouched']},
-         {'name': 'C01_Read', 'types': {'quick': PAIRS_Q, 'thorough': PAIRS_ALL}, 'params': {'quick': C01_Q, 'thorough': C01_T},
+         {'name': 'C01_Read', 'types': {'quick': PAIRS_Q, 'thorough': PAIRS_ALL}, 'params': {'quick': C01_Q, 'thorough': C01_Q},
           'covers': ['read', 'beyond']},
          {'name': 'C01_ReadKeepsBuffer', 'types': {'quick': PAIRS_Q[:4], 'thorough': PAIRS_Q}, 'params': {'quick': {'MaxC': 2, 'MaxK': 2}, 'thorough': C01_Q}},
-         {'name': 'C01_WriteStriped', 'types': {'quick': PAIRS_Q[:6], 'thorough': PAIRS_ALL}, 'params': {'quick': C01_Q, 'thorough': C01_T},
+         {'name': 'C01_WriteStriped', 'types': {'quick': PAIRS_Q[:6] + PAIRS_Q[12:], 'thorough': PAIRS_ALL}, 'params': {'quick': C01_Q, 'thorough': C01_Q},
           'covers': ['written', 'zero-filled', 'untouched']},
-         {'name': 'C01_ReadStriped', 'types': {'quick': PAIRS_Q[:6], 'thorough': PAIRS_ALL}, 'params': {'quick': C01_Q, 'thorough': C01_T},
+         {'name': 'C01_ReadStriped', 'types': {'quick': PAIRS_Q[:6], 'thorough': PAIRS_ALL}, 'params': {'quick': C01_Q, 'thorough': C01_Q},
           'covers': ['read', 'beyond']},
          {'name': 'C01_RoundTrip', 'types': {'quick': PAIRS_Q[:6], 'thorough': PAIRS_ALL}, 'params': {'quick': C01_Q, 'thorough': C01_T}},
+         {'name': 'C01_Write', 'types': {'quick': [], 'thorough': PAIRS_Q}, 'params': {'thorough': C01_T}},
+         {'name': 'C01_Read', 'types': {'quick': [], 'thorough': PAIRS_Q}, 'params': {'thorough': C01_T}},
+         {'name': 'C01_WriteStriped', 'types': {'quick': [], 'thorough': PAIRS_Q[:6]}, 'params': {'thorough': C01_T}},
+         {'name': 'C01_ReadStriped', 'types': {'quick': [], 'thorough': PAIRS_Q[:6]}, 'params': {'thorough': C01_T}},
          {'name': 'C01_ChannelLength', 'types': [()], 'params': {'quick': {'MaxLemmaC': 4, 'MaxLemmaLen': 32}, 'thorough': {'MaxLemmaC': 8, 'MaxLemmaLen': 64}}},
      ],
-     bounds={'quick': 'channels 1..3, capacity 0..2 frames, every window (case split), 0..C-1 extra samples (unaligned lengths, interleaved forms), caller slices of every length 0..C*K+2 / per-channel slices nil or 0..K+1 long; all sample values and witness positions symbolic; 12 element-type pairs',
-             'thorough': 'channels 1..3, capacity 0..3 frames; all 169 element-type pairs'},
+     bounds={'quick': 'channels 1..3, capacity 0..2 frames, every window (case split), 0..C-1 extra samples (unaligned lengths, interleaved forms), caller slices of every length 0..C*K+2 / per-channel slices nil or 0..K+1 long; all sample values and witness positions symbolic; 14 element-type pairs',
+             'thorough': 'all 169 element-type pairs at channels 1..3, capacity 0..2 frames; 14 (striped: 6) representative pairs additionally at capacity 0..3 frames; ChannelLength for C<=8, n<=64'},
      outside=['more channels / frames than the bound', 'values not representable in both element types (excluded by the property)'])
 
 FAMS = {'Float': FLOATS, 'Signed': INTS_S, 'Unsigned': INTS_U}
@@ -267,10 +271,12 @@ prop('C19', opts={'threads': True, 'abstract_fp': True}, race_replay=True,
 
 prop('C11', opts={'threads': True, 'pool_mode': 'all'}, race_replay=True, stress_replay=True,
      harnesses=[{'name': 'C11_Workers', 'types': {'quick': ['int8', 'float64'], 'thorough': ['int8', 'uint16', 'float64']},
+                 'splits': [{'by-value': b, 'C': c, 'K': k} for b in (0, 1) for c in (1, 2) for k in (0, 1)],
                  'params': {'quick': {'MaxPoolC': 2, 'MaxPoolK': 1, 'G': 2, 'M': 1}, 'thorough': {'MaxPoolC': 2, 'MaxPoolK': 1, 'G': 3, 'M': 1}}, 'covers': ['joined', '@par-joined']},
                 {'name': 'C11_Workers', 'types': {'quick': ['int8'], 'thorough': ['int8', 'float64']},
+                 'splits': [{'by-value': b, 'C': c, 'K': k, 'L': l} for b in (0, 1) for c in (1, 2) for k in (0, 1) for l in (0, 1)],
                  'params': {'quick': {'MaxPoolC': 1, 'MaxPoolK': 1, 'G': 2, 'M': 2}, 'thorough': {'MaxPoolC': 2, 'MaxPoolK': 1, 'G': 2, 'M': 2}}, 'covers': ['joined']}],
-     bounds={'quick': 'G=2 goroutines x M=1 cycle (allocators with 1..2 channels, capacity 0..1 frame, every length) and G=2 x M=2 (1 channel, capacity 0..1); allocator shared by pointer and by value copies; every interleaving of the pool operations (scheduling points: Pool.Get, Pool.Put, goroutine start/end) and every pool outcome (any pooled buffer, or a new one as after a GC); per path: exclusivity at every Get, freshness, stamp integrity, and a solver query for every unordered conflicting access pair',
+     bounds={'quick': 'G=2 goroutines x M=1 cycle (allocators with 1..2 channels, capacity 0..1 frame, every length) and G=2 x M=2 (1 channel, capacity 0..1); allocator shared by pointer and by value copies; every interleaving of the pool operations (scheduling points: Pool.Get, Pool.Put, the moment before a goroutine gives up its buffer, goroutine start/end) and every pool outcome (any pooled buffer, or a new one as after a GC); per path: exclusivity at every Get, freshness, stamp integrity, and a solver query for every unordered conflicting access pair',
              'thorough': 'G=3 x M=1 and G=2 x M=2 with 1..2 channels'},
      level_note='sync.Pool itself (per-P caches, victim cache, atomics), the Go scheduler and the garbage collector are not encoded: they are replaced by a linearizable multiset whose Get may return any pooled item or a freshly allocated one, with the documented Put->Get happens-before edge. GOMAXPROCS and forced GCs of the property are subsumed by that nondeterminism; G up to 64 is reduced to G<=3. Segments between pool operations run atomically, justified by the race check itself (DRF-SC).',
      outside=['sync.Pool internals, scheduler, GC', 'G > 3 goroutines, M > 2 cycles', 'larger buffers'])
@@ -339,3 +345,7 @@ for _p in ('C06', 'C07', 'C08', 'C09'):
     for _h in PROPS[_p]['harnesses']:
         if 'opts' in _h:
             _h['opts'] = dict(_h['opts'], pool_mode='hit')
+
+for _p in ('C06', 'C07'):
+    for _h in PROPS[_p]['harnesses']:
+        _h['params'] = {'quick': {'BigLayout': 1, 'BigFrames': 600}, 'thorough': {'BigLayout': 1, 'BigFrames': 4096}}
